@@ -7,10 +7,9 @@ from .internal import value_properties as _value_properties
 
 
 def _splitlines(s: str) -> list[str]:
-    lines = s.splitlines(keepends=True)
-    if not lines or lines[-1].endswith('\n'):
-        lines.append('')
-    return lines
+    # Unlike str.splitlines, only split where the lexer ends a line.
+    lines = s.split('\n')
+    return [line + '\n' for line in lines[:-1]] + lines[-1:]
 
 
 @_registry.token_model
